@@ -2047,6 +2047,9 @@ class PseudoNetCDFFile(PseudoNetCDFSelfReg, object):
             for dk, ia in isarray.items():
                 if ia:
                     dimslices[dk] = np.asarray(dimslices[dk])
+                    if dimslices[dk].size == 0:
+                        # an empty list has no integer type of its own
+                        dimslices[dk] = dimslices[dk].astype('i')
 
         for dk, ds in dimslices.items():
             # if anyisarray and isarray[dk]: continue
@@ -2107,7 +2110,11 @@ class PseudoNetCDFFile(PseudoNetCDFSelfReg, object):
                     sliceoi = tuple(sliceoi)
                     point_arrays.append(np.expand_dims(
                         varo[sliceoi], axis=concatax))
-                newvals = np.ma.concatenate(point_arrays, axis=concatax)
+                if arraylen == 0:
+                    # nothing selected: zero-length result
+                    newvals = np.ma.zeros(newvaro.shape, dtype=varo.dtype)
+                else:
+                    newvals = np.ma.concatenate(point_arrays, axis=concatax)
             else:
                 # integers are applied as length-1 slices so that numpy does
                 # not move axes when an integer and an index list select
